@@ -191,6 +191,8 @@ def run(ck, prog, tier, load):
             ok = any(is_call(elt.term(d), r"TimerState::set_and_init$") for d in elt.dominators(bb)) or any(c[0] == "discr" and e_has_field(c, DF + "shutdown_timer$") for c, lab, a in elt.guards(bb))
             ck.ob("C04-b.linger-timer-armed", "ensure_linger_timer", ok, elt, bb, "returns true only with the shutdown timer active (already, or set_and_init(cx, ..) just now)")
 
+    timer_polls_observed(ck, prog, "C04-b")
+
     # ---- (c) shutdown chain ---------------------------------------------------
     ops = flag_ops(poll)
     rd = [(bb, fl) for bb, op, fl, t in ops if op == "insert" and "READ_DISCONNECT" in fl]
@@ -231,3 +233,27 @@ def error_exit(ck, prog, P):
         ck.ob(P + ".error-exit-after-flush", "Dispatcher::poll", ok, poll, bb, "the connection future resolves with the stored error only on the edge write_buf.is_empty(): the error response queued with it has been written completely", witness=poll.path_lines(wit))
         ok2, wit2 = guarded_by(poll, bb, st_none)
         ck.ob(P + ".error-exit-after-responses", "Dispatcher::poll", ok2, poll, bb, "... and only on the edge state.is_none(): no dispatched request is still waiting for its response (returning earlier drops the pending handler and its response is never written)", witness=poll.path_lines(wit2))
+
+
+def timer_polls_observed(ck, prog, P):
+    """shared by C04 (no lost wake-up) and C06 (the timeout is acted upon)"""
+    # a timer that is polled must have its answer looked at: `Ready` registers no waker, so a discarded `Ready` (a
+    # deadline that had already passed when the timer was armed: deadlines come from a cached clock) leaves the task
+    # with nothing to wake it and the expiry is never acted upon
+    n_tp = 0
+    for b in list(prog.in_file("actix-http/src/h1/timer.rs")) + list(prog.in_file("actix-http/src/h1/dispatcher.rs")):
+        if "::tests::" in b.npath or b.npath.endswith("_tests"):
+            continue
+        for bb, t in b.calls(r"Future>::poll$|Future::poll$"):
+            recv = b.op_expr(t["args"][0], 5)
+            if not any(isinstance(p_, str) and (p_.endswith("Active.timer") or p_.endswith("_timer")) for x in walk(recv) if x[0] == "place" for p_ in x[2]):
+                continue
+            n_tp += 1
+            is_this = lambda x: x[0] == "call" and x[3] == bb and rx(r"Future>::poll$|Future::poll$").search(x[1] or "") is not None
+            branched = any(b.branch(a) and any(is_this(x) for x in walk(b.branch(a)[0])) for a in b.live)
+            returned = any(any(is_this(x) for x in walk(e)) for rb, e in b.ret_exprs())
+            wakes = [w for w, t2 in b.calls(r"Waker::wake_by_ref$|Waker::wake$")]
+            ck.ob(P + ".timer-poll-observed", "%s" % b.npath.split("::")[-1], branched or returned, b, bb,
+                  "the Poll returned by polling a timer is examined (branched on or returned): a discarded `Ready` means an already-expired deadline is never acted upon and no wake-up is registered for it")
+    ck.anchor(P, n_tp, 4, "polls of dispatcher timers (init, head, keep-alive, shutdown)")
+
